@@ -76,6 +76,16 @@ def atom_mass(seq, out):
     return out
 
 
+def dens_of(c):
+    """the density a component brings: its own, or - for one kind of atom however it is written (2Fe, (Ni)2) - the element's"""
+    f = attempt(formula, c)
+    if isinstance(f, Exception):
+        return None
+    if f.density is not None:
+        return f.density
+    return list(f.atoms)[0].density if len(f.atoms) == 1 else None
+
+
 def rel(a, b, tol=1e-9):
     return abs(a - b) <= tol * max(abs(a), abs(b))
 
@@ -221,7 +231,7 @@ while len(cases) < ncase:
         s += rng.choice([" // ", "//", " //", "// "]) + comps[-1]
         f = add("string-volume%" if vol else "string-weight%", "(InString %s)" % cstr(s), lambda: formula(s), s)
         if isinstance(f, Exception) and all(not isinstance(attempt(formula, c), Exception) for c in comps) and \
-                (not vol or all(formula(c).density for c in comps)):
+                (not vol or all(dens_of(c) for c in comps)):
             fails.append(dict(signature="C11:valid-percent-string-rejected", what="formula(%r) raises %s: %s although every component parses and the "
                               "spelling is documented" % (s, type(f).__name__, f), input=s))
         if isinstance(f, Formula):
@@ -251,7 +261,7 @@ while len(cases) < ncase:
         if isinstance(f, Exception) and any(u == "L" for u in units) and isinstance(f, ValueError) and "unknown element L" in str(f):
             fails.append(dict(signature="C11:unit-L-rejected", what="formula(%r) raises %s" % (s, f), input=s))
         elif isinstance(f, Exception) and all(not isinstance(attempt(formula, c), Exception) for c in comps) and \
-                all(formula(c).density for c, u in zip(comps, units) if u in VOL_U) and sum(qs) > 0:
+                all(dens_of(c) for c, u in zip(comps, units) if u in VOL_U) and sum(qs) > 0:
             fails.append(dict(signature="C11:valid-quantity-string-rejected", what="formula(%r) raises %s: %s although every part parses, every "
                               "unit is documented (%s) and every part given by volume has a density" % (s, type(f).__name__, f, ", ".join(sorted(set(units)))),
                               input=s))
